@@ -205,7 +205,7 @@ USAGE = ['missing-input', 'directory-input', 'no-command', 'missing-command', 'n
 
 @st.composite
 def e2e_case(draw):
-    kind = draw(st.sampled_from(['damaged-run', 'damaged-run', 'damaged-run', 'broken-mutator', 'usage']))
+    kind = draw(st.sampled_from(['damaged-run', 'damaged-run', 'blackbox-run', 'broken-mutator', 'usage']))
     base = gen_run.script(1, 4).map(lambda t: refreader.read(t, keep_comments=False))
     trees, ops = draw(gen_sexpr.damaged(base, 3))
     text = model.render_list(trees) + '\n'
@@ -256,6 +256,20 @@ def run_e2e(case, acc, wd):
         cut = r.after.get('repeat') or r.after.get('too_many_accepts')
         if ok and not cut and r.after['rc'] != 0:
             acc.violation('status/normal-run-nonzero', f'status {r.after["rc"]} without a traceback: {r.stdout[-200:]!r} {r.stderr[-300:]!r}', case)
+        return len(r.log) >= 5, classes
+    if kind == 'blackbox-run':
+        # the executable itself: status 0 exactly when minimisation ran to completion
+        r = e2e.run_ddsmt(wd, case['text'], case['spec'], case['opts'], mode='blackbox', wall_limit=90)
+        classes.append(f'strategy-{case["opts"]["strategy"]}')
+        if r.timed_out:
+            acc.skip('e2e wall limit (cycling run, see C03)')
+            return False, classes
+        ok = no_traceback(r, acc, case, case['opts']['strategy'])
+        if ok and r.exit != 0:
+            acc.violation('status/completed-run-nonzero', f'bin/ddsmt exited with {r.exit} after a run that completed: '
+                          f'{r.stdout[-200:]!r} {r.stderr[-300:]!r}', case)
+        if ok and r.exit == 0 and not r.completed:
+            acc.violation('status/zero-without-completion', f'exit status 0 but no completion message: {r.stderr[-300:]!r}', case)
         return len(r.log) >= 5, classes
     if kind == 'broken-mutator':
         r = e2e.run_ddsmt(wd, case['text'], case['spec'], case['opts'], mode='launcher',
@@ -410,7 +424,7 @@ def fuzz(ctx, acc, dd, runs):
 
 
 def replay(case, acc, ctx):
-    if case.get('kind') in ('damaged-run', 'broken-mutator', 'usage'):
+    if case.get('kind') in ('damaged-run', 'blackbox-run', 'broken-mutator', 'usage'):
         run_e2e(case, acc, os.path.join(ctx.workdir, 'replay'))
     else:
         guard.limit_memory(4)
